@@ -73,6 +73,8 @@ typedef struct esl_sqascii_s {
   int      curbpl;	      /* bytes on current line    (-1=unknown)      */
   int      prvrpl;	      /* residues on previous line                  */
   int      prvbpl;	      /* bytes on previous line                     */
+  int      maxrpl;	      /* most residues seen on any one line         */
+  int      maxxpl;	      /* most ignored bytes (not '\n') on any line   */
   ESL_SSI *ssi;		      /* open ESL_SSI index, or NULL if none        */
 } ESL_SQASCII_DATA;
 
